@@ -43,7 +43,8 @@ def decode_template(bs):
 
 
 def _single_def(body, l):
-    ds = body.defs().get(l, [])
+    # (a store through the local — `*l = ..` — is not a definition of the local itself)
+    ds = [d for d in body.defs().get(l, []) if not (d[2] == "assign" and d[3]["pl"]["p"])]
     return ds[0] if len(ds) == 1 else None
 
 
